@@ -966,6 +966,9 @@ class Interp:
     def label_of_str(self, s):
         if s not in self.str_labels:
             self.str_labels[s] = z3.Const('lbl:' + s, LabelSort)
+            if self.ctx is not None:
+                for u in getattr(self.ctx, 'uuid_labels', None) or []:
+                    self.ctx.assume(u != self.str_labels[s])
         return self.str_labels[s]
 
     def background(self):
